@@ -1,13 +1,12 @@
 /-
 C05 — scope never escalates across minting, refresh and exchange.
-Decision-logic theorems on the provider core model; the history invariant `scope_bounded`
-is stated (`ScopeInv`) and its preservation is proved for the scope-relevant steps.
+The history invariant (`Proofs/Scope.lean`: `SInv`, preserved by every API step) gives
+`scope_bounded` for every reachable state; the decision-logic theorems say what each step does.
 -/
 import IdpyVerif.Proofs.Redeem
+import IdpyVerif.Proofs.Scope
 namespace Idpy.Props.C05
 open Idpy Idpy.Provider
-
-def Sub (a b : List Str) : Prop := ∀ x ∈ a, x ∈ b
 
 theorem isSubset_sub {a b : List Str} (h : isSubset a b = true) : Sub a b := by
   intro x hx
@@ -107,5 +106,56 @@ theorem refresh_never_widens (cfg : Cfg) (s : St) (client : Str) (rt : Nat) (sc 
                 refine ⟨t, g, ht, hg, ?_, by simpa using h.2.2.2.2.symm⟩
                 apply isSubset_sub
                 simpa [scopeBad] using hbad
+
+
+/-! ### the history invariant -/
+
+/-- **scope never escalates — for every history.** After ANY sequence of authorizations, code
+    redemptions (parse / process interleaved), refreshes with or without an explicit scope,
+    revocations, logouts, removals and clock advances, every token the provider holds — code,
+    access, refresh, ID token, however long its minting chain — carries a scope within the scope
+    recorded for its own grant -/
+theorem scope_bounded (cfg : Cfg) (ops : List Op) :
+    ∀ t ∈ (run cfg {} ops).1.toks, ∃ g ∈ (run cfg {} ops).1.grants, g.id = t.gid ∧ Sub t.scope g.scope := by
+  intro t ht
+  have h := run_sinv cfg ops {} sinv_init
+  obtain ⟨g, hg, hid⟩ := (h.sc t ht).1
+  exact ⟨g, hg, hid, (h.sc t ht).2 g hg hid⟩
+
+/-- … and minting chains never leave their grant: the token a token is based on belongs to the same grant -/
+theorem chains_stay_in_grant (cfg : Cfg) (ops : List Op) :
+    ∀ t ∈ (run cfg {} ops).1.toks, ∀ b, t.basedOn = some b → ∀ bt ∈ (run cfg {} ops).1.toks, bt.id = b → bt.gid = t.gid :=
+  (run_sinv cfg ops {} sinv_init).base
+
+/-- what introspection reports for a token of a reachable state is within the grant's scope -/
+theorem introspection_scope_bounded (cfg : Cfg) (ops : List Op) (client : Str) (tok : Nat) (sc : List Str)
+    (h : (step cfg (run cfg {} ops).1 (.introspect client tok)).2 = .introspect true sc) :
+    ∃ t g, findTok (run cfg {} ops).1 tok = some t ∧ findGr (run cfg {} ops).1 t.gid = some g ∧ Sub sc g.scope := by
+  have hi := run_sinv cfg ops {} sinv_init
+  generalize (run cfg {} ops).1 = s at h hi
+  simp only [step] at h
+  split at h
+  · simp at h
+  · rename_i t ht
+    split at h
+    · simp at h
+    · rename_i g hg
+      split at h
+      · simp at h
+      · split at h
+        · simp at h
+        · simp only [Out.introspect.injEq, true_and] at h
+          have hgm := findGr_mem hg
+          have htm := findTok_mem ht
+          refine ⟨t, g, ht, hg, ?_⟩
+          rw [← h]
+          split
+          · exact (hi.sc t htm.1).2 g hgm.1 hgm.2
+          · exact findScope_sub' s hi g hgm.1 _ _ (fun b' hb' bt hbt => by
+              have hbm := findTok_mem hbt
+              rw [hi.base t htm.1 b' hb' bt hbm.1 hbm.2, hgm.2])
+
+/-- the invariant is about something: the empty state satisfies it and it is carried along any run -/
+example (cfg : Cfg) (ops : List Op) : SInv (run cfg {} ops).1 := run_sinv cfg ops {} sinv_init
 
 end Idpy.Props.C05
